@@ -5,7 +5,19 @@
      D key
      BC key lines | BS key f|d count     (baseline file on disk; absent when no B record and NOBL given)
      NOBL                                (no baseline file on disk)
-   output: exit code, then the reported results as path|kind|status separated by spaces *)
+   output: exit code, then the reported results as path|kind|status separated by spaces
+
+   Composed mode (Check/Compose.v check_command): when the line carries a CMD record the per-file facts are not read
+   from F records but computed by the threshold model from the content configuration, the CLI overrides and, per
+   file, the walk / counter / globset data:
+     CMD max_lines warn_threshold_bits warn_at|~ skip_comments skip_blank       ([content] globals)
+     E ext                                   (content.extensions, in order)
+     X pattern                               (content.exclude, in order)
+     R pattern max_lines wt_bits|~ warn_at|~ sc|~ sb|~     (content.rules, in order)
+     CLI max_lines|~ count_comments count_blank wt_bits|~ ext+ext|~            (check overrides)
+     I path scanned ev mv ext|~ total,code,comment,blank,ignored|~             (ev / mv: exclude and rule match vectors, 0/1 strings, - empty)
+   the RUN record keeps the flags (its ce field is ignored: config_rejected decides). Output as above followed by
+   " ## rej=<0|1>" and the computed facts path|scanned|selected|counted|count|limit|warn. *)
 open Pipeline_ex
 let rec pos_of_int n = if n = 1 then XH else if n land 1 = 0 then XO (pos_of_int (n lsr 1)) else XI (pos_of_int (n lsr 1))
 let n_of_int n = if n = 0 then N0 else Npos (pos_of_int n)
@@ -14,6 +26,29 @@ let int_of_n = function N0 -> 0 | Npos p -> int_of_pos p
 let dec s = if s = "" || s = "-" then [] else List.map (fun t -> n_of_int (int_of_string t)) (String.split_on_char ',' s)
 let enc l = if l = [] then "-" else String.concat "," (List.map (fun n -> string_of_int (int_of_n n)) l)
 let b s = s = "1"
+(* arbitrary-size decimals (f64 bit patterns exceed the native int) *)
+let n_of_dec (s : string) : n =
+  let d = Array.init (String.length s) (fun i -> Char.code s.[i] - 48) in
+  Array.iter (fun x -> if x < 0 || x > 9 then failwith ("bad number " ^ s)) d;
+  let is_zero () = Array.for_all (fun x -> x = 0) d in
+  let div2 () = let r = ref 0 in Array.iteri (fun i x -> let v = !r * 10 + x in d.(i) <- v / 2; r := v mod 2) d; !r in
+  let rec bits () = if is_zero () then [] else let x = div2 () in x :: bits () in
+  let rec pos = function [1] -> XH | 0 :: t -> XO (pos t) | 1 :: t -> XI (pos t) | _ -> failwith "pos" in
+  match bits () with [] -> N0 | bl -> Npos (pos bl)
+let dec_of_n (x : n) : string =
+  match x with
+  | N0 -> "0"
+  | Npos p ->
+    let rec bits p acc = match p with XH -> 1 :: acc | XO q -> bits q (0 :: acc) | XI q -> bits q (1 :: acc) in
+    let digits = ref [0] in
+    List.iter (fun bt ->
+      let carry = ref bt in
+      digits := List.map (fun d -> let v = d * 2 + !carry in carry := v / 10; v mod 10) !digits;
+      if !carry > 0 then digits := !digits @ [!carry]) (bits p []);
+    String.concat "" (List.rev_map string_of_int !digits)
+let opt f s = if s = "~" then None else Some (f s)
+let bits_of s = if s = "-" || s = "" then [] else List.init (String.length s) (fun i -> s.[i] = '1')
+let b01 x = if x then "1" else "0"
 let rm = function "w" -> Some RWarn | "a" -> Some RAuto | "s" -> Some RStrict | _ -> None
 let st = function "P" -> Passed | "W" -> Warning | "F" -> Failed | _ -> Grandfathered
 let st_s = function Passed -> "P" | Warning -> "W" | Failed -> "F" | Grandfathered -> "G"
@@ -28,6 +63,8 @@ let () =
     let mkResult p k s c l h = { r_path = p; r_kind = k; r_status = s; r_code = c; r_limit = l; r_hash = h } in
     let ce = ref false and fl = ref (mkFlags false None None None false false false) in
     let fs = ref [] and sres = ref [] and dirs = ref [] and bl = ref [] and nobl = ref false in
+    let cmd = ref None and exts = ref [] and excl = ref [] and rules = ref [] and ins = ref [] in
+    let cli = ref { cli_max_lines = None; cli_count_comments = false; cli_count_blank = false; cli_warn_threshold = None; cli_ext = None } in
     List.iter (function
       | ["RUN"; c; bsl; rc; rg; wo; wae] -> ce := b c; fl := mkFlags (b bsl) None (rm rc) (rm rg) (b wo) (b wae) false
       | ["F"; p; a; s; c; cnt; lim; w] -> fs := mkFact (dec p) (b a) (b s) (b c) (n_of_int (int_of_string cnt)) (n_of_int (int_of_string lim)) (n_of_int (int_of_string w)) [] :: !fs
@@ -36,10 +73,35 @@ let () =
       | ["BC"; k; l] -> bl := (dec k, EContent (n_of_int (int_of_string l), [])) :: !bl
       | ["BS"; k; t; c] -> bl := (dec k, EStructure ((if t = "f" then Files else Dirs), n_of_int (int_of_string c))) :: !bl
       | ["NOBL"] -> nobl := true
+      | ["CMD"; mx; wt; wa; sc; sb] -> cmd := Some (n_of_dec mx, n_of_dec wt, opt n_of_dec wa, b sc, b sb)
+      | ["E"; e] -> exts := dec e :: !exts
+      | ["X"; p] -> excl := dec p :: !excl
+      | ["R"; p; mx; wt; wa; sc; sb] ->
+        rules := { r_pattern = dec p; r_max = n_of_dec mx; r_wt = opt n_of_dec wt; r_wa = opt n_of_dec wa;
+                   r_sc = opt b sc; r_sb = opt b sb; r_reason = None } :: !rules
+      | ["CLI"; mx; cc; cb; wt; ex] ->
+        cli := { cli_max_lines = opt n_of_dec mx; cli_count_comments = b cc; cli_count_blank = b cb; cli_warn_threshold = opt n_of_dec wt;
+                 cli_ext = opt (fun e -> List.map dec (String.split_on_char '+' e)) ex }
+      | ["I"; p; sc; ev; mv; ext; stats] ->
+        let st = opt (fun x -> match List.map n_of_dec (String.split_on_char ',' x) with
+                               | [t; c; m; bl; i] -> { ls_total = t; ls_code = c; ls_comment = m; ls_blank = bl; ls_ignored = i }
+                               | _ -> failwith "bad stats") stats in
+        ins := { fi_path = dec p; fi_scanned = b sc; fi_ev = bits_of ev; fi_mv = bits_of mv; fi_ext = opt dec ext; fi_stats = st; fi_hash = [] } :: !ins
       | [] -> ()
       | _ -> failwith "bad record") recs;
     let disk = if !nobl then None else Some (List.rev !bl) in
-    let out = check_run !ce !fl (List.rev !fs) (List.rev !sres) (List.rev !dirs) disk in
-    print_endline (string_of_int (int_of_n out.o_exit) ^ " " ^
-      String.concat " " (List.map (fun r -> enc r.r_path ^ "|" ^ kind_s r.r_kind ^ "|" ^ st_s r.r_status) out.o_results))
+    let show out = string_of_int (int_of_n out.o_exit) ^ " " ^
+      String.concat " " (List.map (fun r -> enc r.r_path ^ "|" ^ kind_s r.r_kind ^ "|" ^ st_s r.r_status) out.o_results) in
+    match !cmd with
+    | None -> print_endline (show (check_run !ce !fl (List.rev !fs) (List.rev !sres) (List.rev !dirs) disk))
+    | Some (mx, wt, wa, sc, sb) ->
+      let cfg = { c_exts = List.rev !exts; c_max = mx; c_wt = wt; c_wa = wa; c_sc = sc; c_sb = sb;
+                  c_exclude = List.rev !excl; c_rules = List.rev !rules } in
+      let ins = List.rev !ins in
+      let out = check_command cfg !cli !fl ins (List.rev !sres) (List.rev !dirs) disk in
+      let ck = check_checker cfg !cli in
+      let facts = List.map (fun i -> let f = fact_of ck i in
+        Printf.sprintf "%s|%s|%s|%s|%s|%s|%s" (enc f.ff_path) (b01 f.ff_scanned) (b01 f.ff_selected) (b01 f.ff_counted)
+          (dec_of_n f.ff_count) (dec_of_n f.ff_limit) (dec_of_n f.ff_warn)) ins in
+      print_endline (show out ^ " ## rej=" ^ b01 (config_rejected cfg !cli) ^ " " ^ String.concat " " facts)
   done with End_of_file -> ()
